@@ -2,7 +2,7 @@
    and stops at the following space") and the theorem lex_unlex by induction on the token list.  Owner: ext-lexer. *)
 From Coq Require Import List NArith Bool Arith Lia.
 From DV Require Import C06.Model C06.Lexer C06.LayoutProofs C06.StrProofs.
-From DV Require C10.Model.
+From DV Require C10.Model C10.Layout C10.Trim.
 Import ListNotations.
 
 Local Open Scope N_scope.
@@ -259,10 +259,11 @@ Proof.
 Qed.
 
 (* every recorded part is not empty and consists of characters of the input *)
-Definition good_part (p : str) : Prop := p <> [] /\ Forall (fun c => c <> 5760%N) p.
+Definition nws (c : N) : Prop := NM.is_white_space c = false.
+Definition good_part (p : str) : Prop := p <> [] /\ Forall nws p.
 
 Definition inv2 (inp : str) (s : NM.mstate) (pos : nat) (a : NM.acc) : Prop :=
-  Forall good_part (NM.a_parts a) /\ Forall (fun c => c <> 5760%N) (NM.a_cur a) /\
+  Forall good_part (NM.a_parts a) /\ Forall nws (NM.a_cur a) /\
   match s with
   | NM.S1 => NM.a_cur a <> []
   | NM.S3 => NM.a_cur a <> [] \/ NM.next_is NM.is_name_part inp pos = true
@@ -276,26 +277,37 @@ Proof.
   - rewrite He. discriminate.
 Qed.
 
+(* a name part character other than U+1680, an additional symbol: not trimmed by str::trim *)
+Lemma next_name_nws : forall inp pos, Forall (fun c => c <> 5760%N) inp -> NM.next_is NM.is_name_part inp pos = true -> nws (NM.ch inp (S pos)).
+Proof.
+  intros inp pos Hin H. destruct (DV.C10.Layout.next_is_true _ _ _ H) as [_ Hp]. unfold nws.
+  destruct (NM.is_white_space (NM.ch inp (S pos))) eqn:E; [|reflexivity].
+  exfalso. exact (ch_clean inp (S pos) Hin (DV.C10.Trim.name_part_white_space _ Hp E)).
+Qed.
+
+Lemma next_sym_nws : forall inp pos, NM.next_is NM.is_add_sym inp pos = true -> nws (NM.ch inp (S pos)).
+Proof. intros inp pos H. destruct (DV.C10.Layout.next_is_true _ _ _ H) as [_ Hp]. exact (DV.C10.Trim.add_sym_not_white_space _ Hp). Qed.
+
 Lemma step_inv2 : forall inp s pos a s' pos' a', Forall (fun c => c <> 5760%N) inp ->
   inv2 inp s pos a -> NM.step inp s pos a = Some (s', pos', a') -> inv2 inp s' pos' a'.
 Proof.
   intros inp s pos a s' pos' a' Hin [HP [HC HS]] H. unfold NM.step in H. unfold inv2.
-  assert (Hrev : forall l, l <> [] -> Forall (fun c => c <> 5760%N) l -> good_part (rev l)).
+  assert (Hrev : forall l, l <> [] -> Forall nws l -> good_part (rev l)).
   { intros l Hl Hf. split; [intro E; apply Hl; rewrite <- (rev_involutive l), E; reflexivity|].
     apply Forall_forall. intros c Hc. rewrite Forall_forall in Hf. apply Hf. apply in_rev. exact Hc. }
   destruct s.
   - destruct (NM.next_is NM.is_name_part inp pos) eqn:E; inversion H; subst; cbn [NM.a_parts NM.a_cps NM.a_cur].
-    + split; [exact HP|]. split; [constructor; [apply ch_clean; exact Hin|exact HC]|discriminate].
+    + split; [exact HP|]. split; [constructor; [apply next_name_nws; [exact Hin|exact E]|exact HC]|discriminate].
     + split; [constructor; [apply Hrev; assumption|exact HP]|]. split; [constructor|exact I].
   - destruct (NM.next_is NM.is_name_part inp pos) eqn:E; [inversion H; subst; split; [exact HP|split; [exact HC|right; exact E]]|].
     destruct (NM.next_is NM.is_add_sym inp pos); [inversion H; subst; split; [exact HP|split; [exact HC|exact I]]|].
     destruct (NM.next_is NM.is_ws inp pos); [inversion H; subst; split; [exact HP|split; [exact HC|exact I]]|discriminate H].
   - destruct (NM.next_is NM.is_name_part inp pos) eqn:E; inversion H; subst; cbn [NM.a_parts NM.a_cps NM.a_cur].
-    + split; [exact HP|]. split; [constructor; [apply ch_clean; exact Hin|exact HC]|left; discriminate].
+    + split; [exact HP|]. split; [constructor; [apply next_name_nws; [exact Hin|exact E]|exact HC]|left; discriminate].
     + destruct HS as [HS|HS]; [|discriminate HS].
       split; [constructor; [apply Hrev; assumption|exact HP]|]. split; [constructor|exact I].
-  - destruct (NM.next_is NM.is_add_sym inp pos); inversion H; subst; cbn [NM.a_parts NM.a_cps NM.a_cur].
-    + split; [constructor; [split; [discriminate|constructor; [apply ch_clean; exact Hin|constructor]]|exact HP]|]. split; [constructor|exact I].
+  - destruct (NM.next_is NM.is_add_sym inp pos) eqn:E; inversion H; subst; cbn [NM.a_parts NM.a_cps NM.a_cur].
+    + split; [constructor; [split; [discriminate|constructor; [apply next_sym_nws; exact E|constructor]]|exact HP]|]. split; [constructor|exact I].
     + split; [exact HP|split; [exact HC|exact I]].
   - destruct (NM.next_is NM.is_ws inp pos); inversion H; subst; split; try exact HP; split; try exact HC; exact I.
 Qed.
@@ -310,11 +322,17 @@ Proof.
     + inversion H; subst. exact Hi.
 Qed.
 
-Lemma collect_word : forall x w rest, forallb NM.is_name_part w = true -> stops_name rest = true ->
+Lemma name_clean_nws : forall c, NM.is_name_part c = true -> c <> 5760%N -> nws c.
+Proof.
+  intros c H1 H2. unfold nws. destruct (NM.is_white_space c) eqn:E; [|reflexivity].
+  exfalso. exact (H2 (DV.C10.Trim.name_part_white_space _ H1 E)).
+Qed.
+
+Lemma collect_word : forall x w rest, NM.is_name_part x = true -> forallb NM.is_name_part w = true -> stops_name rest = true ->
   Forall (fun c => c <> 5760%N) (x :: w ++ rest) ->
   exists ps cs e, NM.collect (x :: w ++ rest) 0 = ((x :: w) :: ps, length w :: cs, e) /\ Forall good_part ((x :: w) :: ps).
 Proof.
-  intros x w rest Hw Hr Hclean. unfold NM.collect.
+  intros x w rest Hx0 Hw Hr Hclean. unfold NM.collect.
   change (NM.ch (x :: w ++ rest) 0) with x. change [x] with (rev (x :: [])).
   set (inp := x :: w ++ rest).
   assert (Hfuel : exists fuel, 4 * S (length inp) = S (length w) + fuel).
@@ -326,7 +344,8 @@ Proof.
   destruct (machine_extends _ _ _ _ _ _ _ _ E) as [lp [lc [H1 [H2 H3]]]]. cbn [NM.a_parts NM.a_cps] in H1, H2.
   assert (Hi : inv2 (x :: w ++ rest) NM.S2 (length w) {| NM.a_parts := [x :: w]; NM.a_cps := [length w]; NM.a_cur := [] |}).
   { split; [|split; [constructor|exact I]]. cbn [NM.a_parts]. constructor; [|constructor]. split; [discriminate|].
-    inversion Hclean as [|? ? Hx Hrest]; subst. constructor; [exact Hx|]. apply Forall_app in Hrest. tauto. }
+    inversion Hclean as [|? ? Hx Hrest]; subst. constructor; [exact (name_clean_nws x Hx0 Hx)|]. apply Forall_app in Hrest. destruct Hrest as [Hcw _].
+    rewrite forallb_forall in Hw. rewrite Forall_forall in *. intros c Hc. apply name_clean_nws; [apply Hw; exact Hc|apply Hcw; exact Hc]. }
   destruct (machine_inv2 _ _ _ _ _ _ _ _ Hclean Hi E) as [HP _].
   exists (rev lp), (rev lc), (S p). rewrite H1, H2, !rev_app_distr. cbn [rev app]. split; [reflexivity|].
   rewrite H1 in HP. apply Forall_app in HP. destruct HP as [HP1 HP2]. constructor; [inversion HP2; assumption|].
@@ -344,24 +363,18 @@ Qed.
 Lemma str_eqb_refl : forall a, NM.str_eqb a a = true.
 Proof. induction a as [|x a IH]; [reflexivity|]. cbn [NM.str_eqb]. rewrite N.eqb_refl. exact IH. Qed.
 
-Lemma trim_left_id : forall p, Forall (fun c => c <> 5760%N) p -> trim_left p = p.
-Proof. intros [|c r] H; [reflexivity|]. inversion H; subst. cbn [trim_left]. rewrite eqb_false_of by assumption. reflexivity. Qed.
-
-Lemma trim_part_id : forall p, Forall (fun c => c <> 5760%N) p -> trim_part p = p.
+Lemma map_trim_id : forall ps, Forall good_part ps -> map NM.trim ps = ps.
 Proof.
-  intros p H. unfold trim_part. rewrite (trim_left_id p H). rewrite trim_left_id by (apply Forall_rev; exact H). apply rev_involutive.
+  intros ps H. apply DV.C10.Trim.map_trim_id. eapply Forall_impl; [|exact H]. intros p [_ Hp]. exact Hp.
 Qed.
 
-Lemma map_trim_id : forall ps, Forall good_part ps -> map trim_part ps = ps.
-Proof. induction ps as [|p ps IH]; intros H; [reflexivity|]. inversion H as [|? ? [_ Hp] Hps]; subst. cbn [map]. rewrite trim_part_id by exact Hp. rewrite IH by exact Hps. reflexivity. Qed.
-
-Lemma name_new_one : forall w, NM.name_new [w] = w.
-Proof. intros. unfold NM.name_new. cbn [NM.name_new_go negb andb app]. apply app_nil_r. Qed.
+Lemma name_new_one : forall w, NM.name_join [w] = w.
+Proof. exact DV.C10.Trim.name_join_one. Qed.
 
 Lemma name_new_two : forall w p2 q, NM.is_sym_part w = false -> p2 <> [] ->
-  exists x tail, NM.name_new (w :: p2 :: q) = w ++ x :: tail /\ (x = 32%N \/ NM.is_add_sym x = true).
+  exists x tail, NM.name_join (w :: p2 :: q) = w ++ x :: tail /\ (x = 32%N \/ NM.is_add_sym x = true).
 Proof.
-  intros w p2 q Hw Hp. unfold NM.name_new. cbn [NM.name_new_go]. rewrite Hw. cbn [negb andb app].
+  intros w p2 q Hw Hp. unfold NM.name_join. cbn [NM.name_new_go]. rewrite Hw. cbn [negb andb app].
   destruct (NM.is_sym_part p2) eqn:E.
   - unfold NM.is_sym_part in E. destruct p2 as [|c [|d r]]; try discriminate E. cbn [negb andb app].
     exists c. eexists. split; [reflexivity|right; exact E].
@@ -438,27 +451,29 @@ Proof.
   assert (Hw : forallb NM.is_name_part w = true).
   { cbn [forallb] in Hplain. apply andb_true_iff in Hplain. destruct Hplain as [_ Hp]. rewrite forallb_forall in *.
     intros c Hc. specialize (Hp c Hc). unfold plain_char in Hp. apply andb_true_iff in Hp. tauto. }
-  destruct (collect_word x w (32%N :: rest) Hw eq_refl Hclean) as [ps [cs [e [Hc Hg]]]].
+  assert (Hx0 : NM.is_name_part x = true).
+  { cbn [forallb] in Hplain. apply andb_true_iff in Hplain. destruct Hplain as [Hp _]. unfold plain_char in Hp. apply andb_true_iff in Hp. tauto. }
+  destruct (collect_word x w (32%N :: rest) Hx0 Hw eq_refl Hclean) as [ps [cs [e [Hc Hg]]]].
   unfold name_token. rewrite Hc. cbv beta iota.
   assert (Hskip : skipn (S (length w)) (x :: w ++ 32%N :: rest) = 32%N :: rest) by (cbn [skipn]; apply skipn_exact).
   destruct (NM.str_eqb (x :: w) NM.str_item) eqn:Eitem.
   - cbn [nth]. rewrite Hskip. reflexivity.
   - rewrite Htill.
     assert (Hone : forall p : str, p = x :: w -> name_of [p] = x :: w).
-    { intros p ->. unfold name_of. cbn [map]. inversion Hg as [|? ? [_ Hx] _]; subst. rewrite trim_part_id by exact Hx. apply name_new_one. }
+    { intros p ->. unfold name_of, NM.name_new. cbn [map]. inversion Hg as [|? ? [_ Hx] _]; subst. rewrite (DV.C10.Trim.trim_id _ Hx). apply name_new_one. }
     rewrite search_t_first.
     + cbn [firstn]. rewrite !Hone by reflexivity. destruct (NM.mem (x :: w) keys) eqn:Emem.
       * cbn [firstn Nat.sub nth]. rewrite ?Hone by reflexivity. rewrite Hskip. reflexivity.
       * cbn [orb] in Hsome. rewrite Hsome. cbn [firstn Nat.sub nth]. rewrite ?Hone by reflexivity. rewrite Hskip. reflexivity.
     + cbn [length]. lia.
     + intros pc Hp1 Hp2. destruct pc as [|[|pc]]; try lia. destruct ps as [|p2 q]; [cbn [length] in Hp2; lia|].
-      cbn [firstn]. unfold name_of.
+      cbn [firstn]. unfold name_of, NM.name_new.
       assert (Hg' : Forall good_part ((x :: w) :: p2 :: firstn pc q)).
       { inversion Hg as [|? ? G1 G2]; subst. inversion G2 as [|? ? G3 G4]; subst. constructor; [exact G1|]. constructor; [exact G3|]. apply Forall_firstn_. exact G4. }
       rewrite map_trim_id by exact Hg'.
       inversion Hg as [|? ? _ G2]; subst. inversion G2 as [|? ? [G3 _] _]; subst.
       destruct (name_new_two (x :: w) p2 (firstn pc q) (plain_not_sym_part _ Hplain) G3) as [c [tail [Hn Hc2]]].
-      assert (Hn' : forall l, l = ((x :: w) :: p2 :: firstn pc q) -> NM.name_new l = (x :: w) ++ c :: tail) by (intros ? ->; exact Hn).
+      assert (Hn' : forall l, l = ((x :: w) :: p2 :: firstn pc q) -> NM.name_join l = (x :: w) ++ c :: tail) by (intros ? ->; exact Hn).
       rewrite Hn' by reflexivity. pose proof (nonplain_sep c Hc2) as Hnp. split; [apply mem_nonplain; assumption|apply Hbuilt; exact Hnp].
 Qed.
 
